@@ -74,6 +74,14 @@ def cases(ctx):
             K = 25
         sc, ec = gen.cfg(rng)
         mode = MODES[int(rng.integers(0, len(MODES)))]
+        if not stat and rng.random() < 0.15:
+            # degenerate kernel bandwidths: smoothing of (nearly) constant classes, signed zeros, one-sample classes
+            pos, neg, kind = gen.scores(rng, min_pos=1, min_neg=1, maxn=int(rng.choice([4, 12, 40])), kinds=["negzero", "pool5", "lattice", "ulp"])
+            if rng.random() < 0.5:  # a class that is mostly one signed zero: the interpolated quartiles differ in the sign of zero
+                def zeros_mostly(n):
+                    return np.where(rng.random(n) < 0.75, float(rng.choice([-0.0, -0.0, 0.0])), rng.choice([0.0, -0.0, 0.1, -0.1, 0.5], n))
+                pos, neg, kind = zeros_mostly(int(rng.integers(1, 14))), zeros_mostly(int(rng.integers(1, 14))), "negzero"
+            mode = MODES[int(rng.choice([2, 3, 8]))]
         yield {"pos": pos, "neg": neg, "ep": ep, "en": en, "sc": sc, "ec": ec, "kind": kind, "mode": list(mode), "K": K,
                "_seed": int(rng.integers(1 << 31))}
 
